@@ -217,6 +217,15 @@ Fixpoint lines_after (text : list N) (width : N) (prev : wline) (ls : list wline
     && lines_after text width l r
   end.
 
+(** write_wrapped (text_util.rs:515-550) writes the lines of wrap_bytes separated by newlines. *)
+Definition join_lines (ls : list wline) : list N :=
+  match ls with
+  | [] => []
+  | l :: r => wl_bytes l ++ flat_map (fun x => 10%N :: wl_bytes x) r
+  end.
+Definition wrapped_okb (ls : list wline) (wrapped : list N) : bool :=
+  list_eqb N.eqb (join_lines ls) wrapped.
+
 Definition lines_ok (text : list N) (width : N) (ls : list wline) : bool :=
   match ls with
   | [] => false                     (* split() yields at least one line *)
@@ -257,8 +266,9 @@ Inductive case :=
          (out : list N) (w : N) (panicked : bool)
 (** write_padded_*: kind 0 start, 1 end, 2 centered. *)
 | CPad (kind : N) (data fill : list ch) (min sw_data : N) (out : list N) (panicked : bool)
-(** wrap_bytes: text bytes, width, lines as reported. *)
-| CWrap (text : list N) (width : N) (ls : list wline) (panicked : bool).
+(** wrap_bytes: text bytes, width, lines as reported; and what write_wrapped wrote for the same
+    text (recorded in three labelled regions) on a plain formatter. *)
+| CWrap (text : list N) (width : N) (ls : list wline) (wrapped : list N) (panicked : bool).
 
 (** Width of an output string, looking the per-character widths up in the inputs (every output
     character comes from the text, the ellipsis or the fill). *)
@@ -323,7 +333,7 @@ Definition pad_okb (kind : N) (data fill : list ch) (min swd : N) (out : list N)
 Definition panicked_of (c : case) : bool :=
   match c with
   | CElide _ _ _ _ _ _ p => p | CTrunc _ _ _ _ _ _ _ _ p => p
-  | CPad _ _ _ _ _ _ p => p | CWrap _ _ _ p => p
+  | CPad _ _ _ _ _ _ p => p | CWrap _ _ _ _ p => p
   end.
 
 (** Property checker on the implementation's outputs alone. *)
@@ -333,7 +343,7 @@ Definition okb (c : case) : bool :=
   | CElide start text ell max out w _ => elide_okb start text ell max out w
   | CTrunc start data ell max swd swe out w _ => trunc_okb start data ell max swd out w
   | CPad kind data fill min swd out _ => pad_okb kind data fill min swd out
-  | CWrap text width ls _ => lines_ok text width ls
+  | CWrap text width ls ww _ => lines_ok text width ls && wrapped_okb ls ww
   end.
 
 (** A failing case is demoted to a known finding only inside the class (and never a panic). *)
@@ -364,10 +374,10 @@ Definition corr (c : case) : bool :=
               else if kind =? 1 then write_padded_end sw data fill (N.to_nat min)
               else write_padded_centered sw data fill (N.to_nat min)) in
     negb p && cps_eqb (out_cps o) out
-  | CWrap _ _ _ _ => true
+  | CWrap _ _ _ _ _ => true
   end.
 
 Definition check_case (c : case) : N :=
   verdict (corr c) (okb c) (knownb c)
           (match c with CElide _ _ _ _ _ _ _ => 1 | CTrunc _ _ _ _ _ _ _ _ _ => 2
-                   | CPad _ _ _ _ _ _ _ => 3 | CWrap _ _ _ _ => 4 end).
+                   | CPad _ _ _ _ _ _ _ => 3 | CWrap _ _ _ _ _ => 4 end).
